@@ -385,6 +385,10 @@ func (g *gen) relPattern(pathCtx bool) string {
 		inner += " {" + g.inlineProp() + "}"
 		g.feat("inline-props")
 	}
+	if varlen && g.chance("varlenprops", 1, 5) {
+		inner += " {" + g.inlineProp() + "}"
+		g.feat("var-length-inline-props")
+	}
 	body := ""
 	if inner != "" {
 		body = "[" + inner + "]"
@@ -1117,7 +1121,7 @@ func (g *gen) loweringTemplate() string {
 	g.feat(fmt.Sprintf("template-%d", k))
 	switch k {
 	case 0: // count fast paths
-		switch g.pick("t0", 5) {
+		switch g.pick("t0", 6) {
 		case 0:
 			return "match (n" + g.optKind("t0k") + ") return count(n)"
 		case 1:
@@ -1126,8 +1130,15 @@ func (g *gen) loweringTemplate() string {
 			return "match ()-[r:" + g.eks() + "]->() return count(r)"
 		case 3:
 			return "match (a" + g.optKind("t0k") + ")-[r" + ":" + g.ek() + "]->(b" + g.optKind("t0k2") + ") return count(r)"
-		default:
+		case 4:
 			return "match ()-[r]->() return count(*)"
+		default:
+			// the same variable at both ends: only self loops count
+			rel := "r"
+			if g.chance("t0sk", 1, 2) {
+				rel += ":" + g.eks()
+			}
+			return "match (a)-[" + rel + "]->(a) return " + rapid.SampledFrom([]string{"count(r)", "count(*)", "count(a)"}).Draw(g.t, "t0sr")
 		}
 	case 1: // anchored expansion, either end
 		if g.chance("t1in", 1, 2) {
@@ -1143,13 +1154,21 @@ func (g *gen) loweringTemplate() string {
 		if g.chance("t4not", 2, 3) {
 			neg = "not "
 		}
-		return "match (s)-[:" + g.ek() + g.rng() + "]->(g" + g.optKind("t4k") + ") with collect(s) as ex match (c)-[:" + g.eks() + "]->(d) where " + neg + "c in ex return c, d"
+		ret := rapid.SampledFrom([]string{"c, d", "c, d", "c, ex", "ex", "c, size(ex)", "d, ex"}).Draw(g.t, "t4ret")
+		if g.chance("t4simple", 1, 3) {
+			return "match (s" + g.optKind("t4k0") + ") with collect(s) as ex match (c" + g.optKind("t4k1") + ") where " + neg + "c in ex return " + strings.ReplaceAll(ret, "d", "c")
+		}
+		return "match (s)-[:" + g.ek() + g.rng() + "]->(g" + g.optKind("t4k") + ") with collect(s) as ex match (c)-[:" + g.eks() + "]->(d) where " + neg + "c in ex return " + ret
 	case 5: // aggregate traversal count
 		return "match (u" + g.optKind("t5k") + ") where " + g.anchor("u") + " match (u)-[:" + g.eks() + g.rng() + "]->(c" + g.optKind("t5k2") + ") with distinct u, count(c) as cnt return u order by cnt desc" + g.lim()
 	case 6: // quantifier over relationships(p)
 		q := rapid.SampledFrom([]string{"all", "any", "none"}).Draw(g.t, "t6q")
 		pred := rapid.SampledFrom([]string{"r.value > 0", "r.flag = true", "r.name = 'a'", "type(r) = 'R'", "r.value <= 2"}).Draw(g.t, "t6p")
-		return "match p = (a" + g.optKind("t6k") + ")-[:" + g.eks() + g.rng() + "]->(b) where " + q + "(r in relationships(p) where " + pred + ") return p"
+		step := g.rng()
+		if g.chance("t6fixed", 1, 3) {
+			step = ""
+		}
+		return "match p = (a" + g.optKind("t6k") + ")-[:" + g.eks() + step + "]->(b" + g.optKind("t6k2") + ") where " + q + "(r in relationships(p) where " + pred + ") return " + rapid.SampledFrom([]string{"p", "b", "a, b", "p"}).Draw(g.t, "t6ret") + g.lim()
 	case 7: // typed edge with negated type
 		return "match p = (s" + g.optKind("t7k") + ")-[r:" + EdgeKinds[0] + "|" + EdgeKinds[1] + "]->(t) where not r:" + EdgeKinds[g.pick("t7n", 2)] + " return p" + g.lim()
 	case 8: // exact ranges
